@@ -52,7 +52,7 @@ func C18(p *load.Prog, r *report.Report) {
 					z, dz := known(it, absint.ISZ(block(k)))
 					ok, dok := known(it, absint.SymBool(fmt.Sprintf("readok#%d", k)))
 					if !(dz && z && dok && ok) {
-						r.Fail("C18.retry", fmt.Sprintf("retry after %d reads", reads), pos, fmt.Sprintf("the loop continues after block %d although the path does not say that block is zero mod n", k))
+						r.Fail("C18.retry", fmt.Sprintf("retry after %d reads", reads), pos, fmt.Sprintf("the loop continues after block %d although the path does not say that block is zero mod n: %s", k, guardString(res)))
 					}
 				}
 				return
@@ -91,7 +91,7 @@ func C18(p *load.Prog, r *report.Report) {
 				good = false
 			}
 			if k == reads && !(dz && !z) {
-				r.Fail("C18.nonzero", construct, pos, "returns without having established that the value is non-zero")
+				r.Fail("C18.nonzero", construct, pos, "returns without having established that the value is non-zero: "+guardString(res))
 				good = false
 			}
 		}
